@@ -85,8 +85,8 @@ def run(ctx) -> None:
         # R2
         keyexpr = s.key if s.kind == "plain" else None
         if keyexpr is None:
-            for k in regex_keys(s):
-                keyexpr = k
+            cands = [k for k in regex_keys(s) if key_is_reference_spelling(k)]
+            keyexpr = cands[0] if cands else None
         root = keyexpr
         while isinstance(root, ast.Attribute):
             root = root.value
